@@ -58,6 +58,15 @@ def _run(spec, rep, only):
 
 
 def one_case(rep, spec, index):
+    _one_case(rep, spec, index, edit=False)
+    rng = gen.case_rng(PROP + "edit", spec["seed"], spec["shard"], index)
+    if rng.random() < 0.2:
+        # the same scenario, but the curve-set OBJECT is used once, then edited in place (one curve's permeances
+        # re-measured: same temperatures, same number of points) and used again: the second run must follow the edited data
+        _one_case(rep, spec, index, edit=True)
+
+
+def _one_case(rep, spec, index, edit):
     import pyvaporation.pervaporation.pervaporation as pvmod
     from pyvaporation.membrane import Membrane
     from pyvaporation.mixtures import Composition
@@ -97,6 +106,26 @@ def one_case(rep, spec, index):
     single = len(sc.curve_set.diffusion_curves) == 1
     tc = sc.curve_set.diffusion_curves[0].feed_temperature
     case = dict(sc.describe(), index=index, kind=kind)
+    if edit:
+        from pyvaporation.permeance import Permeance
+
+        def call_once():
+            try:
+                with guards.budget(proc.SOFT_BUDGET):
+                    if kind == "non_ideal_diffusion_curve":
+                        sc.pv.non_ideal_diffusion_curve(diffusion_curve_set=sc.curve_set, feed_temperature=sc.t0, initial_feed_composition=sc.x0, delta_composition=0.01,
+                                                        number_of_steps=1, initial_permeances=sc.initial_permeances, include_zero=sc.include_zero, **sc.orders)
+                    else:
+                        getattr(sc.pv, kind)(**sc.call_kwargs(n=1))
+            except (Exception, guards.BudgetExceeded):
+                pass
+
+        call_once()
+        curve = rng.choice(sc.curve_set.diffusion_curves)
+        f1, f2 = rng.uniform(1.3, 2.5), rng.uniform(0.3, 0.7)
+        curve.permeances = [(Permeance(value=p[0].value * f1 * (1 + 0.3 * i), units=p[0].units), Permeance(value=p[1].value * f2, units=p[1].units))
+                            for i, p in enumerate(curve.permeances)]
+    case = dict(case, curve_set_edited_in_place_after_a_first_use=edit)
     # what the public extractor yields for each component BEFORE the model runs (a model that rewrites the set would
     # otherwise be compared with its own rewrite)
     ref_measurements = (Measurements.from_diffusion_curves_first(sc.curve_set), Measurements.from_diffusion_curves_second(sc.curve_set))
@@ -153,33 +182,42 @@ def one_case(rep, spec, index):
     rep.count("runs_" + status)
     if status != "ok":
         return
-    rep.require("exactly two best-fit searches inside the model", len(rec_fit) == 2, case, {"calls": len(rec_fit)})
-    if len(rec_fit) != 2:
-        return
+    observed = len(rec_fit) == 2
+    if not observed:
+        # the model did not go through the module-level search this time (an implementation may legitimately remember
+        # earlier searches): nothing is recorded, the returned functions are judged against the public search directly
+        rep.count("inner_searches_not_observed")
     comps = (sc.mix.first_component, sc.mix.second_component)
     extract = (Measurements.from_diffusion_curves_first, Measurements.from_diffusion_curves_second)
     expected = []
     for i in (0, 1):
-        a, k, ret, ret_c = rec_fit[i]
-        data = k.get("data", a[0] if a else None)
         ref_data = ref_measurements[i]
         ci = dict(case, component=i)
-        rep.require("the search for component i receives exactly that component's measurements from the supplied set",
-                    data is not None and fingerprint.deep(data) == fingerprint.deep(ref_data) and k.get("component_index", 0) == i, ci,
-                    {"points_given": None if data is None else len(data), "points_expected": len(ref_data), "component_index": k.get("component_index")})
         want_n = sc.orders["n_first" if i == 0 else "n_second"]
         want_m = 0 if single else sc.orders["m_first" if i == 0 else "m_second"]
-        rep.require("the search is made with the caller's maximum orders (m = 0 for a single curve)", k.get("n") == want_n and k.get("m") == want_m, ci,
-                    {"n": k.get("n"), "m": k.get("m"), "expected": [want_n, want_m]})
+        if observed:
+            a, k, ret, ret_c = rec_fit[i]
+            data = k.get("data", a[0] if a else None)
+            rep.require("the search for component i receives exactly that component's measurements from the supplied set",
+                        data is not None and fingerprint.deep(data) == fingerprint.deep(ref_data) and k.get("component_index", 0) == i, ci,
+                        {"points_given": None if data is None else len(data), "points_expected": len(ref_data), "component_index": k.get("component_index")})
+            rep.require("the search is made with the caller's maximum orders (m = 0 for a single curve)", k.get("n") == want_n and k.get("m") == want_m, ci,
+                        {"n": k.get("n"), "m": k.get("m"), "expected": [want_n, want_m]})
+        else:
+            # options the pinned models use: the caller's include_zero except for single-curve process models (never)
+            k = {"n": want_n, "m": want_m, "include_zero": sc.include_zero if (not single or kind == "non_ideal_diffusion_curve") else False}
+            ret_c = None
         # independent public search with the same options
         best = find_best_fit(data=ref_data, n=k.get("n"), m=k.get("m"), include_zero=k.get("include_zero", False), component_index=i)
-        rep.require("the fit used equals an independent public best-fit search on that component's measurements (bitwise)", coeffs(best) == ret_c, ci,
-                    {"inside": str(ret_c)[:160], "independent": str(coeffs(best))[:160]})
+        if ret_c is not None:
+            rep.require("the fit used equals an independent public best-fit search on that component's measurements (bitwise)", coeffs(best) == ret_c, ci,
+                        {"inside": str(ret_c)[:160], "independent": str(coeffs(best))[:160]})
         # the function the model must follow
         rescale = single and not (sc.t0 == tc and kind != "non_ideal_non_isothermal_process")
         if rescale:
             e_i = orig_ea(sc.membrane, comps[i])
-            rep.require("single curve: activation energy of that component was queried", any(nm == comps[i].name for nm, _ in rec_ea), ci, {"queried": [nm for nm, _ in rec_ea]})
+            if observed:
+                rep.require("single curve: activation energy of that component was queried", any(nm == comps[i].name for nm, _ in rec_ea), ci, {"queried": [nm for nm, _ in rec_ea]})
 
             def f(x, t, best=best, e_i=e_i):
                 return float(best(x, tc)) * math.exp(-e_i / refmodel.R * (1 / t - 1 / tc))
